@@ -1,4 +1,6 @@
 \* generated ContentStates: round trip through the decoder, corpus dump (CF_DUMP), tier from CF_TIER
+\* module ContentFormatMC; needs witness_crc32c.json in the working directory (harness/py/cfmt.py write_crc_witness);
+\* run through harness/py/cfspec.py, which copies the spec into a private directory under out/
 CONSTANT Part = "gen"
 INIT Init
 NEXT Next
